@@ -74,6 +74,26 @@ package strategy
 //@   loop 0 invariant predecessor_was_delivered: hasPrevKey ==> ghost_itCount >= 1
 //@   loop 0 invariant no_key_before_the_first: !hasPrevKey ==> ghost_itCount == 0
 //@   at_call fmt.Errorf#1 assert rejects_only_with_predecessor: ghost_itCount >= 2
+//@   after_call lmdb.(*Cursor).Get#0 ghost loc_dkArr := arrayOf(ret0)
+//@   after_call lmdb.(*Cursor).Get#0 ghost loc_dkOff := offsetOf(ret0)
+//@   after_call lmdb.(*Cursor).Get#0 ghost loc_dkLen := len(ret0)
+//@   after_call lmdb.(*Cursor).Get#0 ghost loc_dvArr := arrayOf(ret1)
+//@   after_call lmdb.(*Cursor).Get#0 ghost loc_dvOff := offsetOf(ret1)
+//@   after_call lmdb.(*Cursor).Get#0 ghost loc_dvLen := len(ret1)
+//@   after_call strategy.Iterator.Next#0 ghost loc_ikArr := arrayOf(ret0)
+//@   after_call strategy.Iterator.Next#0 ghost loc_ikOff := offsetOf(ret0)
+//@   after_call strategy.Iterator.Next#0 ghost loc_ikLen := len(ret0)
+//@   let dbPair = arrayOf(dbKey) == ghost_loc_dkArr && offsetOf(dbKey) == ghost_loc_dkOff && uint64(len(dbKey)) == ghost_loc_dkLen && arrayOf(dbVal) == ghost_loc_dvArr && offsetOf(dbVal) == ghost_loc_dvOff && uint64(len(dbVal)) == ghost_loc_dvLen
+//@   let itCur = arrayOf(itKey) == ghost_loc_ikArr && offsetOf(itKey) == ghost_loc_ikOff && uint64(len(itKey)) == ghost_loc_ikLen
+//@   loop 0 invariant stored_pair_is_the_cursor_result: isnil(dbKey) || dbPair
+//@   loop 0 invariant input_key_is_the_iterator_result: isnil(itKey) || itCur
+//@   at_call strategy.iterBothFunc#0 assert input_exhausted_cleans_the_stored_entry: itEOF && !dbEOF && isnil(arg0) && sameSlice(arg1, dbKey) && sameSlice(arg2, dbVal) && dbPair && arg3 && !arg4
+//@   at_call strategy.iterBothFunc#1 assert database_exhausted_appends_the_input_key: dbEOF && !itEOF && sameSlice(arg0, itKey) && itCur && isnil(arg1) && isnil(arg2) && !arg3 && arg4
+//@   at_call bytes.Compare#1 assert compares_stored_with_input: sameSlice(arg0, dbKey) && sameSlice(arg1, itKey)
+//@   at_call strategy.cmpIntegerLittleEndian#1 assert compares_stored_with_input: sameSlice(arg0, dbKey) && sameSlice(arg1, itKey)
+//@   at_call strategy.iterBothFunc#2 assert smaller_stored_key_alone: cmp < 0 && isnil(arg0) && sameSlice(arg1, dbKey) && sameSlice(arg2, dbVal) && dbPair && !arg3 && !arg4
+//@   at_call strategy.iterBothFunc#3 assert equal_keys_together: cmp == 0 && sameSlice(arg0, itKey) && itCur && sameSlice(arg1, dbKey) && sameSlice(arg2, dbVal) && dbPair && !arg3 && !arg4
+//@   at_call strategy.iterBothFunc#4 assert smaller_input_key_alone: cmp > 0 && sameSlice(arg0, itKey) && itCur && isnil(arg1) && isnil(arg2) && !arg3 && !arg4
 //@   after_call bytes.Compare#0 ghost loc_ordered := ite(ret0 < 0, 1, 0)
 //@   after_call strategy.cmpIntegerLittleEndian#0 ghost loc_ordered := ite(ret0 < 0, 1, 0)
 //@   at_call bytes.Compare#0 assert compares_previous_with_new: sameSlice(arg0, prevKey) && sameSlice(arg1, itKey)
